@@ -125,3 +125,42 @@ Theorem demo_static_confined :
     demo_static_filename template_dir request_path = Some f ->
     exists below, resolve cwd f = resolve cwd template_dir ++ below.
 Proof. exact demo_static_confined_lemma. Qed.
+
+(* util/fs.py ensure_directory (model: absolute normalised directory, single process): it only ever creates
+   directories that did not exist - the directory of the file or ancestors of it - and changes the mode of
+   nothing but what it created itself; a pre-existing directory (the parent of a new cache or lock directory) is
+   never touched. *)
+Theorem ensure_directory_touches_nothing_existing :
+  forall (isdir : list str -> bool) (perm : bool) (d : list str) (o : fsop),
+    In o (ensure_dir_ops isdir perm d) -> isdir (fsop_dir o) = false.
+Proof. exact ensure_dir_ops_not_existing. Qed.
+
+Theorem ensure_directory_chmods_only_created :
+  forall (isdir : list str -> bool) (perm : bool) (d x : list str),
+    In (Chmod x) (ensure_dir_ops isdir perm d) -> In (Mkdir x) (ensure_dir_ops isdir perm d).
+Proof. exact ensure_dir_ops_chmod_created. Qed.
+
+Theorem ensure_directory_only_ancestors :
+  forall (isdir : list str -> bool) (perm : bool) (d : list str) (o : fsop),
+    In o (ensure_dir_ops isdir perm d) -> exists below, d = below ++ fsop_dir o.
+Proof. exact ensure_dir_ops_ancestors. Qed.
+
+(* write_atomic: the temporary file "<target>.tmp-<number>" is a sibling of the target (same directory). *)
+Theorem write_atomic_tmp_is_sibling :
+  forall (cwd : list str) (dir name : str) (r : Z),
+    safe name ->
+    resolve cwd (join1 dir name ++ tmp_suffix r) = resolve cwd dir ++ [name ++ tmp_suffix r].
+Proof. exact write_atomic_tmp_sibling. Qed.
+
+(* Configuration-relative paths: joined onto an ABSOLUTE conf_base_dir they name the same directory whatever the
+   working directory of the process is at request time ... *)
+Theorem absolute_base_independent_of_cwd :
+  forall (base : str) (ps : list str) (cwd1 cwd2 : list str),
+    starts47 base = true -> resolve cwd1 (posix_join base ps) = resolve cwd2 (posix_join base ps).
+Proof. exact absolute_base_cwd_independent. Qed.
+
+(* ... which is false for a relative base (why load_configuration must take abspath of the directory). *)
+Theorem relative_base_independent_of_cwd_refuted :
+  exists (base : str) (ps : list str) (cwd1 cwd2 : list str),
+    resolve cwd1 (posix_join base ps) <> resolve cwd2 (posix_join base ps).
+Proof. exact relative_base_follows_cwd. Qed.
